@@ -18,7 +18,20 @@ import (
 func hnswFn(w *World, role string) *ssa.Function {
 	// helper discovery by structural role among HNSWIndex methods
 	for _, fn := range w.Funcs {
-		if fn.Signature.Recv() == nil || namedTypeName(fn.Signature.Recv().Type()) != "HNSWIndex" {
+		if fn.Signature.Recv() == nil {
+			// the neighbour selection reads no index state: it may be a plain function
+			if role == "select" && fn.Parent() == nil && fn.Synthetic == "" {
+				sig := fn.Signature
+				if sig.Params().Len() == 2 && sig.Results().Len() == 1 && tstr(sig.Results().At(0).Type(), nil) == "[]uint32" &&
+					strings.HasSuffix(tstr(sig.Params().At(0).Type(), qual), "[]candidate") && tstr(sig.Params().At(1).Type(), nil) == "int" {
+					if obj := fn.Object(); obj != nil && !obj.Exported() && len(callsIn(fn, func(cc *ssa.CallCommon) bool { return isSortCall(cc) })) > 0 {
+						return fn
+					}
+				}
+			}
+			continue
+		}
+		if namedTypeName(fn.Signature.Recv().Type()) != "HNSWIndex" {
 			continue
 		}
 		sig := fn.Signature
@@ -551,6 +564,90 @@ func ruleHNSWOrder(r *Run, p string) {
 				}
 			}
 		})
+		if !okPrefix {
+			// general form: out = make([]uint32, L); for every index i of out: out[i] = cands[i].id, where cands is the list
+			// that was sorted — and the sort ran on every way to the copy unless that way established len(cands) ≤ M
+			// (nothing is dropped then, the order is immaterial)
+			sortedName := c.S(sortCall.(ssa.CallInstruction).Common().Args[0])
+			allInstrs(fn, func(in ssa.Instruction) {
+				st, ok := in.(*ssa.Store)
+				if !ok || okPrefix {
+					return
+				}
+				ia, ok := st.Addr.(*ssa.IndexAddr)
+				if !ok || !isAllIndex(ia.Index) {
+					return
+				}
+				mk, isMk := ia.X.(*ssa.MakeSlice)
+				if !isMk {
+					return
+				}
+				// the bound M of the kept list: make(len = M | min(M, len(cands)))
+				mName := c.S(mk.Len)
+				if call, isCall := mk.Len.(*ssa.Call); isCall && len(call.Call.Args) == 2 {
+					if b, isB := call.Call.Value.(*ssa.Builtin); isB && b.Name() == "min" {
+						a0, a1 := c.S(call.Call.Args[0]), c.S(call.Call.Args[1])
+						switch {
+						case strings.HasPrefix(a0, "len("):
+							mName = a1
+						case strings.HasPrefix(a1, "len("):
+							mName = a0
+						}
+					}
+				}
+				vs := c.S(st.Val)
+				base := ""
+				for _, suf := range []string{"[range].id", "[" + c.S(ia.Index) + "].id"} {
+					if strings.HasSuffix(vs, suf) {
+						base = strings.TrimSuffix(vs, suf)
+					}
+				}
+				if base == "" || base != sortedName {
+					return
+				}
+				paths, trunc := enumPaths(fn.Blocks[0], walkCfg{MaxVisits: 1, MaxPaths: 2000, Stop: func(b *ssa.BasicBlock) bool { return b == st.Block() }})
+				if trunc {
+					return
+				}
+				all, n := true, 0
+				for _, pth := range paths {
+					if pth.End != EndStop || !pth.Feasible() {
+						continue
+					}
+					n++
+					if pth.Has(sortCall) {
+						continue
+					}
+					fits := false
+					for _, d := range pth.Decisions {
+						bo, isB := d.Cond.(*ssa.BinOp)
+						if !isB {
+							continue
+						}
+						cmp, neg, okC := normCmp(c, bo)
+						if !okC {
+							continue
+						}
+						isLen := func(x string) bool { return x == "len("+sortedName+")" }
+						holds := d.Taken != neg // cmp holds on this path
+						switch {
+						case cmp.Op == token.LEQ && isLen(cmp.L) && cmp.R == mName && holds: // len ≤ M
+							fits = true
+						case cmp.Op == token.LSS && isLen(cmp.R) && cmp.L == mName && !holds: // ¬(M < len)
+							fits = true
+						case cmp.Op == token.LSS && isLen(cmp.L) && cmp.R == mName && holds: // len < M
+							fits = true
+						}
+					}
+					if !fits {
+						all = false
+					}
+				}
+				if all && n > 0 {
+					okPrefix = true
+				}
+			})
+		}
 		r.Check(okPrefix, rule, "hnsw:"+role+":prefix", w.Pos(fn.Pos())+" "+name, "the kept neighbours are the prefix [0,bound) of the ascending order (nearest first)", "the kept neighbours are not the prefix of the sorted candidates")
 	}
 	// prune bound = min(M, len(cand)); select bound = M when len > M
@@ -709,6 +806,24 @@ func ruleProbes(r *Run, p string, k *vecKind) {
 			}
 		}
 	}
+	// or a range over the first p entries of the ranking: for _, e := range ranked[:p]
+	rangeForm := false
+	if !hdrOK {
+		if iff, ok := probe.Header.Instrs[len(probe.Header.Instrs)-1].(*ssa.If); ok {
+			if bo, ok := iff.Cond.(*ssa.BinOp); ok && bo.Op == token.LSS && isRangeIndex(bo.X) {
+				if lc, ok := bo.Y.(*ssa.Call); ok && len(lc.Call.Args) == 1 {
+					if bi, isB := lc.Call.Value.(*ssa.Builtin); isB && bi.Name() == "len" {
+						if sl, ok := lc.Call.Args[0].(*ssa.Slice); ok && sl.Low == nil && sl.High != nil {
+							if ph, isPhi := bo.X.(*ssa.BinOp).X.(*ssa.Phi); isPhi {
+								counter, bound = ph, sl.High
+								hdrOK, rangeForm = true, true
+							}
+						}
+					}
+				}
+			}
+		}
+	}
 	r.Check(hdrOK, p+".ORD.probe", k.Name+":probe-loop:form", w.InstrPos(probe.Header.Instrs[0])+" "+name, "probe loop is `for i := 0; i < p; i++` (ranks 0..p-1)", "probe loop is not a plain count from 0 to p (ranks may be skipped or the count may depend on list contents)")
 	if !hdrOK {
 		return
@@ -778,6 +893,9 @@ func ruleProbes(r *Run, p string, k *vecKind) {
 		}
 	})
 	okList := strings.HasPrefix(elemC, wantPrefix) && strings.Contains(elemC, "["+c.S(counter)+"]."+rankIdxF+"]")
+	if rangeForm {
+		okList = strings.HasPrefix(elemC, wantPrefix) && strings.Contains(elemC, "[range]."+rankIdxF+"]")
+	}
 	r.Check(okList, p+".ORD.probe", k.Name+":probe-loop:list", site, "scanned list = lists[ranked[i].index] for the probe counter i", "scanned element is "+short(elemC, 120))
 	// ranked = centroids sorted ascending by distance to the preprocessed query, index field = centroid position
 	okRank := false
